@@ -24,7 +24,7 @@ NSHARDS = {"quick": 16, "thorough": 16}
 THRESHOLDS = {"quick": {**{f"c17:opts:{a}{b}{c}": 200 for a in "TF" for b in "TF" for c in "TF"}, "c17:images": 3000,
                         "c17:one-cell-solution": 50, "c17:two-cell-solution": 50, "c17:isolated-cells-present": 200,
                         "c17:isolated-pixel-removed": 200, "c17:dataset-items": 300, "c17:batches": 60, "c17:batch-none": 10,
-                        "c17:batch-repeats": 10, "c17:from-generators": 300, "c17:oblong": 40}}
+                        "c17:batch-repeats": 10, "c17:from-generators": 300, "c17:items-overwritten-by-caller": 60, "c17:oblong": 40}}
 THRESHOLDS["thorough"] = dict(THRESHOLDS["quick"])
 ANCHORS = ["maze_dataset.dataset.rasterized:process_maze_rasterized_input_target", "maze_dataset.dataset.rasterized:_extend_pixels",
            "maze_dataset.maze.lattice_maze:_remove_isolated_cells", "maze_dataset.dataset.rasterized:RasterizedMazeDataset.__getitem__",
@@ -148,6 +148,24 @@ def run(ctx):
                         cmp(ctx, item[0], einp, ainp, "C17/dataset-item/input", dict(case, index=i))
                         cmp(ctx, item[1], etgt, atgt, "C17/dataset-item/target", dict(case, index=i))
                     exp_items.append((einp, etgt, ainp, atgt))
+                # what the caller does to a returned item (in-place normalisation, zeroing) must not show up in later items/batches
+                if n and j % 2 == 0:
+                    for i in range(n):
+                        it = rds[i]
+                        try:
+                            it[...] = 0
+                        except Exception:  # noqa: BLE001
+                            try:
+                                it.zero_()
+                            except Exception:  # noqa: BLE001
+                                ctx.tally("c17:item-not-writable(not judged)")
+                    ctx.tally("c17:items-overwritten-by-caller")
+                    for i in range(n):
+                        einp, etgt, ainp, atgt = exp_items[i]
+                        item = np.asarray(rds[i])
+                        if ctx.check(item.shape == (2, *einp.shape), "C17/dataset-item/wrong-shape", f"{item.shape}", dict(case, index=i)):
+                            cmp(ctx, item[0], einp, ainp, "C17/dataset-item-after-caller-overwrote-earlier-result/input", dict(case, index=i))
+                            cmp(ctx, item[1], etgt, atgt, "C17/dataset-item-after-caller-overwrote-earlier-result/target", dict(case, index=i))
                 # batches
                 for b in range(3):
                     if b == 0:
